@@ -31,6 +31,7 @@ Oracle (weakest reading of the statement; a "binding" is a recorded ``(transport
 
 from __future__ import annotations
 
+import io
 import logging
 from itertools import permutations
 from typing import Any, Protocol
@@ -202,16 +203,15 @@ def make_setup(cfg: dict[str, Any]):
     class MemUnix(UnixTransport):
         """UnixTransport (for serve()'s isinstance dispatch) whose streams are in-memory."""
 
-        __slots__ = ("_mt",)
+        __slots__ = ()
 
-        def __init__(self, mt: Any) -> None:  # noqa: D107 - deliberately does not call the socket constructor
-            self._mt = mt
+        def __init__(self, rd: Any, wr: Any) -> None:  # noqa: D107 - deliberately does not call the socket constructor
             self._sock = None  # type: ignore[assignment]
-            self._reader = mt.reader
-            self._writer = mt.writer
+            self._reader = rd
+            self._writer = wr
 
         def close(self) -> None:
-            self._mt.close()
+            pass
 
     n_fail = HOOKS[cfg["hook"]]
     need_http = any("H" in t for t in cfg["tasks"])
@@ -245,7 +245,6 @@ def make_setup(cfg: dict[str, Any]):
                     ev["end"] = len(log)
                     log.append({"e": "hook-end", "n": k})
                     raise HookBoom(f"hook failure {k}")
-                S.point("hook:work")
                 ev["res"] = "ok"
                 ev["end"] = len(log)
                 log.append({"e": "hook-end", "n": k})
@@ -301,21 +300,21 @@ def make_setup(cfg: dict[str, Any]):
                 rec["out"] = ["err", e.error_type]
 
         def do_serve(rec: dict[str, Any], n: int, op: str) -> None:
-            ct, st = mem.make_mem_pair()
-            st.hub.buf["server"] += request_bytes(n)
-            ct.writer.close()  # the client sent one request and closed: serve() answers it, sees EOF and returns
+            # the client sent one request and closed: serve() answers it, sees EOF and returns.  Plain in-memory
+            # streams (no scheduling points at reads/writes: the response bytes are not what this property is about)
+            rd, wr = io.BytesIO(request_bytes(n)), io.BytesIO()
             if op == "P":
-                tr: Any = PipeTransport(st.reader, st.writer)
+                tr: Any = PipeTransport(rd, wr)
             elif op == "M":
-                tr = ShmPipeTransport(PipeTransport(st.reader, st.writer), shm_segment())
+                tr = ShmPipeTransport(PipeTransport(rd, wr), shm_segment())
             else:
-                tr = MemUnix(st)
+                tr = MemUnix(rd, wr)
             try:
                 srv.serve(tr)
-                rec["out"] = ["ok", len(st.hub.buf["client"]) > 0]
+                rec["out"] = ["ok", len(wr.getvalue()) > 0]
             except HookBoom:
                 rec["out"] = ["err", "HookBoom"]
-            rec["resp_bytes"] = len(st.hub.buf["client"])
+            rec["resp_bytes"] = len(wr.getvalue())
 
         def worker(i: int, ops: str) -> None:
             for j, op in enumerate(ops):
